@@ -164,7 +164,15 @@ def _vc_contains(v):
     return True
 
 
-VECTOR_CORRUPTORS = {"replay-contains": _vc_contains, "replay-lit": _vc_lit, "replay-panic": _vc_panic, "replay": _vc_lang, "replay-hist": _vc_hist, "replay-reg": _vc_reg, "replay-types": _vc_types}
+def _vc_ffiseq(v):
+    for h in v["hist"]:
+        if h["call"] == "fail":
+            h["after"][h["th"] - 1]["null"] = True
+            return True
+    return False
+
+
+VECTOR_CORRUPTORS = {"replay-ffiseq": _vc_ffiseq, "replay-contains": _vc_contains, "replay-lit": _vc_lit, "replay-panic": _vc_panic, "replay": _vc_lang, "replay-hist": _vc_hist, "replay-reg": _vc_reg, "replay-types": _vc_types}
 
 SH = dict(quick=1, thorough=8)
 
@@ -454,7 +462,7 @@ CHECKS = {
              "the Rust API's and the last-error protocol is obeyed (text = Rust error text with NUL -> 0x1A).",
         assumptions=["the C API is called from Rust through the rlib", "FNV-1a is computed with the fnv crate"],
         stages=[
-            mc("last-error-model", "MC_C20.tla", "MC_C20.cfg", replay=False),
+            mc("last-error-model", "MC_C20.tla", "MC_C20.cfg", replay_cmd="replay-ffiseq", workers=4),
             trace("sessions", "Trace_Ffi", ["gen-ffi", "--steps", "60"], 3, 120, shards=dict(quick=1, thorough=6)),
         ],
     ),
